@@ -185,4 +185,180 @@ theorem layers_bridge (F : FrameSys (matOps R) Φ) (n : Nat) (st : LayerState Φ
     obtain ⟨hsg, _⟩ := h.segsList l0 (by simpa using hl0)
     exact (segs_bridge F st.calls h.ws l0 hsg 0).2
 
+/-! ### a pipeline run always completes a layer (the read-out layer) -/
+
+def nonRz : CircCall Φ → Bool
+  | .Rz _ _ => false
+  | _ => true
+
+theorem bin_step_items (P : PhaseOps Φ) (b b' : BinState Φ) (c : CircCall Φ) (h : b.step P c = .ok b') :
+    (b.items ≠ [] → b'.items ≠ []) ∧ (nonRz c = true → b'.items ≠ []) := by
+  cases c <;> simp only [BinState.step, bind, Except.bind, pure, Except.pure] at h
+  all_goals (repeat' split at h)
+  all_goals (try cases h)
+  all_goals simp_all [nonRz]
+
+theorem bin_run_items (P : PhaseOps Φ) (cs : List (CircCall Φ)) (b b' : BinState Φ)
+    (h : foldE (BinState.step P) b cs = .ok b') (hne : b.items ≠ [] ∨ ∃ c ∈ cs, nonRz c = true) : b'.items ≠ [] := by
+  induction cs generalizing b with
+  | nil =>
+    simp only [foldE] at h
+    injection h with h
+    subst h
+    rcases hne with h | ⟨c, hc, _⟩
+    · exact h
+    · cases hc
+  | cons c rest ih =>
+    simp only [foldE, bind, Except.bind] at h
+    cases h1 : b.step P c with
+    | error e => simp [h1] at h
+    | ok b1 =>
+      simp only [h1] at h
+      obtain ⟨k1, k2⟩ := bin_step_items P b b1 c h1
+      apply ih b1 h
+      rcases hne with h0 | ⟨c', hc', hn⟩
+      · exact Or.inl (k1 h0)
+      · rcases List.mem_cons.mp hc' with rfl | hc'
+        · exact Or.inl (k2 hn)
+        · exact Or.inr ⟨c', hc', hn⟩
+
+theorem callsLayered_has_item (n : Nat) (hn : 0 < n) (data : List (Op Φ)) : ∃ c ∈ callsLayered n data, nonRz c = true :=
+  ⟨.bitflip 0 [.tm 0, .rout 0], by
+    unfold callsLayered
+    exact List.mem_append_right _ (List.mem_map.mpr ⟨0, List.mem_range.mpr hn, rfl⟩), rfl⟩
+
+/-- on a layer boundary an object whose index-based twin has registered an item has a completed layer -/
+theorem mpList_ne_nil (n : Nat) (st : LayerState Φ) (b : BinState Φ) (h : Rel n st b) (hs : st.s = 0)
+    (hb : b.items ≠ []) : st.mpList ≠ [] := by
+  intro hnil
+  obtain ⟨A, hA, hAl, _, _⟩ := h.mp
+  have hA0 : A = [] := List.eq_nil_of_length_eq_zero (by omega)
+  have hmp : layerItems st.calls 0 st.mp = [] := by rw [hA, hA0, List.nil_append, layerItems_ones]
+  have := h.items
+  unfold allItems at this
+  rw [hnil] at this
+  simp [hmp] at this
+  exact hb this
+/-! ### no exception on the domain -/
+
+/-- sizes of a layered object for `n` qubits -/
+def Sized (n : Nat) (st : LayerState Φ) : Prop := st.nqubit = n ∧ st.phi.length = n ∧ st.mp.length = n
+
+theorem getAt_ok {α : Type} (l : List α) (i : Nat) (h : i < l.length) : ∃ v, getAt l i = .ok v := by
+  unfold getAt
+  rw [List.getElem?_eq_getElem h]
+  exact ⟨_, rfl⟩
+
+theorem setAt_ok {α : Type} (l : List α) (i : Nat) (v : α) (h : i < l.length) : setAt l i v = .ok (l.set i v) := by
+  unfold setAt
+  rw [if_pos h]
+
+theorem oneQCall_ok (P : PhaseOps Φ) (m : String) (phi : List Φ) (i : Nat) (pars : List Par) (wp : Bool)
+    (h : i < phi.length) : ∃ c, oneQCall P m phi i pars wp = .ok c := by
+  unfold oneQCall
+  obtain ⟨v, hv⟩ := getAt_ok phi i h
+  cases wp <;> simp [hv, bind, Except.bind, pure, Except.pure]
+
+theorem twoQCNOT_ok (P : PhaseOps Φ) (phi : List Φ) (i k : Nat) (pars : List Par) (hi : i < phi.length)
+    (hk : k < phi.length) : ∃ t, twoQCNOT P phi i k pars = .ok t ∧ t.phi.length = phi.length := by
+  unfold twoQCNOT
+  obtain ⟨a, ha⟩ := getAt_ok phi i hi
+  obtain ⟨b, hb⟩ := getAt_ok phi k hk
+  simp only [ha, hb, bind, Except.bind, pure, Except.pure]
+  by_cases hik : i < k
+  · rw [if_pos hik, setAt_ok _ _ _ hi]
+    exact ⟨_, rfl, by simp⟩
+  · rw [if_neg hik, setAt_ok _ _ _ hi]
+    simp only
+    obtain ⟨c, hc⟩ := getAt_ok (phi.set i (P.add (P.add a P.halfPi) (P.add P.halfPi P.halfPi))) k (by simpa using hk)
+    rw [hc]
+    simp only
+    rw [setAt_ok _ _ _ (by simpa using hk)]
+    exact ⟨_, rfl, by simp⟩
+
+theorem twoQECR_ok (phi : List Φ) (i k : Nat) (pars : List Par) (hi : i < phi.length)
+    (hk : k < phi.length) : ∃ t, twoQECR phi i k pars = .ok t ∧ t.phi.length = phi.length := by
+  unfold twoQECR
+  obtain ⟨a, ha⟩ := getAt_ok phi i hi
+  obtain ⟨b, hb⟩ := getAt_ok phi k hk
+  simp only [ha, hb, bind, Except.bind, pure, Except.pure]
+  by_cases hik : i < k
+  · rw [if_pos hik]; exact ⟨_, rfl, rfl⟩
+  · rw [if_neg hik]; exact ⟨_, rfl, rfl⟩
+
+theorem flush_sized (n : Nat) (st : LayerState Φ) (h : Sized n st) : Sized n st.flush := by
+  unfold LayerState.flush
+  split
+  · exact ⟨h.1, h.2.1, by simp [h.1]⟩
+  · exact h
+
+theorem placeE_ok (n : Nat) (st : LayerState Φ) (h : Sized n st) (i : Nat) (hi : i < n) (e : Entry) (w : Nat)
+    (phi : List Φ) (hphi : phi.length = n) : ∃ st', placeE st i e w phi = .ok st' ∧ Sized n st' := by
+  unfold placeE
+  rw [setAt_ok _ _ _ (by rw [h.2.2]; exact hi)]
+  exact ⟨_, rfl, flush_sized n _ ⟨h.1, hphi, by simp [h.2.2]⟩⟩
+
+/-- **no exception on the domain**: a well-formed build call on a layered object of the right sizes returns normally -/
+theorem layer_step_ok (P : PhaseOps Φ) (n : Nat) (st : LayerState Φ) (h : Sized n st) (c : CircCall Φ)
+    (hwf : WFCall n c) : ∃ st', st.step P c = .ok st' ∧ Sized n st' := by
+  cases c with
+  | Rz i th =>
+    simp only [LayerState.step, bind, Except.bind]
+    have hi : i < st.phi.length := by rw [h.2.1]; exact hwf
+    obtain ⟨p, hp⟩ := getAt_ok st.phi i hi
+    rw [hp]
+    simp only
+    rw [setAt_ok _ _ _ hi]
+    exact ⟨_, rfl, h.1, by simp [h.2.1], h.2.2⟩
+  | I i =>
+    simp only [LayerState.step, apply1_eq]
+    exact placeE_ok n st h i hwf _ _ _ h.2.1
+  | X i pars =>
+    simp only [LayerState.step, bind, Except.bind]
+    obtain ⟨c0, hc0⟩ := oneQCall_ok P "X" st.phi i pars true (by rw [h.2.1]; exact hwf)
+    rw [hc0]
+    simp only [apply1_eq]
+    exact placeE_ok n ({ st with calls := c0 :: st.calls }) ⟨h.1, h.2.1, h.2.2⟩ i hwf _ _ _ h.2.1
+  | SX i pars =>
+    simp only [LayerState.step, bind, Except.bind]
+    obtain ⟨c0, hc0⟩ := oneQCall_ok P "SX" st.phi i pars true (by rw [h.2.1]; exact hwf)
+    rw [hc0]
+    simp only [apply1_eq]
+    exact placeE_ok n ({ st with calls := c0 :: st.calls }) ⟨h.1, h.2.1, h.2.2⟩ i hwf _ _ _ h.2.1
+  | relaxation i pars =>
+    simp only [LayerState.step, bind, Except.bind]
+    obtain ⟨c0, hc0⟩ := oneQCall_ok P "relaxation" st.phi i pars false (by rw [h.2.1]; exact hwf)
+    rw [hc0]
+    simp only [apply1_eq]
+    exact placeE_ok n ({ st with calls := c0 :: st.calls }) ⟨h.1, h.2.1, h.2.2⟩ i hwf _ _ _ h.2.1
+  | bitflip i pars =>
+    simp only [LayerState.step, bind, Except.bind]
+    obtain ⟨c0, hc0⟩ := oneQCall_ok P "bitflip" st.phi i pars false (by rw [h.2.1]; exact hwf)
+    rw [hc0]
+    simp only [apply1_eq]
+    exact placeE_ok n ({ st with calls := c0 :: st.calls }) ⟨h.1, h.2.1, h.2.2⟩ i hwf _ _ _ h.2.1
+  | CNOT i k pars =>
+    simp only [LayerState.step, bind, Except.bind]
+    obtain ⟨t, ht, htl⟩ := twoQCNOT_ok P st.phi i k pars (by rw [h.2.1]; exact hwf.1) (by rw [h.2.1]; exact hwf.2.1)
+    rw [ht]
+    simp only [apply2_eq]
+    exact placeE_ok n ({ st with calls := t.call :: st.calls }) ⟨h.1, h.2.1, h.2.2⟩ i hwf.1 _ _ _ (by rw [htl, h.2.1])
+  | ECR i k pars =>
+    simp only [LayerState.step, bind, Except.bind]
+    obtain ⟨t, ht, htl⟩ := twoQECR_ok st.phi i k pars (by rw [h.2.1]; exact hwf.1) (by rw [h.2.1]; exact hwf.2.1)
+    rw [ht]
+    simp only [apply2_eq]
+    exact placeE_ok n ({ st with calls := t.call :: st.calls }) ⟨h.1, h.2.1, h.2.2⟩ i hwf.1 _ _ _ (by rw [htl, h.2.1])
+
+theorem layer_run_ok (P : PhaseOps Φ) (n : Nat) (cs : List (CircCall Φ)) (hwf : ∀ c ∈ cs, WFCall n c)
+    (st : LayerState Φ) (h : Sized n st) : ∃ st', foldE (LayerState.step P) st cs = .ok st' ∧ Sized n st' := by
+  induction cs generalizing st with
+  | nil => exact ⟨st, rfl, h⟩
+  | cons c rest ih =>
+    obtain ⟨st1, h1, hs1⟩ := layer_step_ok P n st h c (hwf c (by simp))
+    obtain ⟨st', h2, hs2⟩ := ih (fun c' hc' => hwf c' (by simp [hc'])) st1 hs1
+    exact ⟨st', by simp only [foldE, bind, Except.bind, h1]; exact h2, hs2⟩
+
+theorem init_sized (P : PhaseOps Φ) (n : Nat) : Sized n (LayerState.init P n) := by
+  simp [Sized, LayerState.init]
 end QG.Lemmas.LayerBridge
